@@ -402,7 +402,7 @@ macro_rules! pipeline_for {
 
 pub fn run(ctx: &Ctx) {
     let mut rep = Report::new("C11", &ctx.tier, ctx.seed);
-    rep.rule = "the claim builder (new / setters) at boundary and random instants and durations vs the model and vs the window [now, now+d]; validator expressions: all 7 leaves, every one-level combinator over leaf pairs (and_then, 2-slices, Box/Rc/Arc/map x3/1-slice/1-vec, empty slice/vec) exhaustively, plus random expressions to depth 3; claims: exp x nbf each absent or at now, now+-1ns, now+-leeway, now+-leeway+-1ns, far past/future, Timestamp::MIN/MAX (representable ones), string claims absent/equal/different/empty/NUL; now in {0, 1.7e18, MIN+leeway, MAX-leeway}, leeway in {0, 1ns, 60s, 1 day}; then the unseal pipeline (local + public) on all six backends with 12 accepting/rejecting validators. non-trivial: all; distinct = distinct (expression shape, verdict, presence of exp/nbf/sub)".into();
+    rep.rule = "the three string matchers over the complete table expected x claim for 12 strings incl. empty, NUL-extended, case and padding variants and the absent claim; the claim builder (new / setters) at boundary and random instants and durations vs the model and vs the window [now, now+d]; validator expressions: all 7 leaves, every one-level combinator over leaf pairs (and_then, 2-slices, Box/Rc/Arc/map x3/1-slice/1-vec, empty slice/vec) exhaustively, plus random expressions to depth 3; claims: exp x nbf each absent or at now, now+-1ns, now+-leeway, now+-leeway+-1ns, far past/future, Timestamp::MIN/MAX (representable ones), string claims absent/equal/different/empty/NUL; now in {0, 1.7e18, MIN+leeway, MAX-leeway}, leeway in {0, 1ns, 60s, 1 day}; then the unseal pipeline (local + public) on all six backends with 12 accepting/rejecting validators. non-trivial: all; distinct = distinct (expression shape, verdict, presence of exp/nbf/sub)".into();
     let mut model = Model::spawn(&ctx.model);
     let mut g = SplitMix64::new(ctx.seed ^ 0xC11);
     // pinned constants: the model's ts_min/ts_max are jiff's
@@ -508,6 +508,31 @@ pub fn run(ctx: &Ctx) {
             let c = g.pick(&cs).clone();
             n += 1;
             run_case(&mut rep, &mut model, &e, &c, n, "random-depth3");
+        }
+    }
+    // the three string matchers, complete truth table over a pool of expected strings and claim values (absent, empty,
+    // equal, prefix, case, padded, NUL-extended, non-ASCII): "accept iff the claim is present and equal"
+    {
+        let pool = ["", "a", "alice", "alice\0", "Alice", " alice", "alice ", "al", "\u{e9}", "aud", "issuer", "\0"];
+        let now: i128 = 1_700_000_000_000_000_000;
+        for which in 0..3 {
+            for expected in pool {
+                let e = match which { 0 => Expr::Sub(expected.into()), 1 => Expr::Iss(expected.into()), _ => Expr::Aud(expected.into()) };
+                for have in std::iter::once(Option::None).chain(pool.iter().map(|x| Some(x.to_string()))) {
+                    let mut c = RC { iss: Some("issuer".into()), sub: Some("alice".into()), aud: Some("aud".into()), exp: Some(ts(now)), nbf: Option::None, iat: Option::None, jti: Option::None };
+                    match which { 0 => c.sub = have.clone(), 1 => c.iss = have.clone(), _ => c.aud = have.clone() };
+                    n += 1;
+                    run_case(&mut rep, &mut model, &e, &c, n, "string-matcher-table");
+                    // the same matcher under and_then with an accepting and with a rejecting partner, both orders
+                    if expected.len() <= 1 || have.is_none() {
+                        for partner in [Expr::None, Expr::Time(now + 1)] {
+                            n += 2;
+                            run_case(&mut rep, &mut model, &Expr::And(Box::new(e.clone()), Box::new(partner.clone())), &c, n, "string-matcher-table");
+                            run_case(&mut rep, &mut model, &Expr::And(Box::new(partner.clone()), Box::new(e.clone())), &c, n, "string-matcher-table");
+                        }
+                    }
+                }
+            }
         }
     }
     // pipeline on every backend (v1/v2 do not support implicit assertions)
